@@ -35,11 +35,12 @@ PROP_TIES = {
             'Position.openFrom'],
     'C15': ['Handler.transactPosition'] + _keys('Position', 'transact', ['err', 'refusal']) + _keys('Position', 'updatePrice', ['err', 'refusal']) +
            _keys('Portfolio', 'subscribe', ['err', 'refusal']) + _keys('Portfolio', 'withdraw', ['err', 'refusal']) +
-           _keys('Portfolio', 'transactAsset', ['err', 'refusal']),
+           _keys('Portfolio', 'transactAsset', ['err', 'refusal']) +
+           ['Broker.checkFunds', 'Broker.checkCurrency', 'Broker.subscribeAccount', 'Broker.withdrawAccount'],
     'C14': ['Session.plan'],
     'C16': ['Session.plan'],
     'C19': ['Universe.dynamicAssets', 'Optimiser.equalWeight', 'Alpha.singleSignal'],
-    'C01': ['Portfolio.subscribe', 'Portfolio.withdraw', 'Portfolio.transactAsset'],
+    'C01': ['Portfolio.subscribe', 'Portfolio.withdraw', 'Portfolio.transactAsset', 'Broker.subscribeAccount', 'Broker.withdrawAccount'],
     'C04': ['Broker.makeTxn#fill'],
     'C05': ['Broker.makeTxn', 'PercentFee.totalCost', 'ZeroFee.totalCost'],
     'C10': ['DW.checkBuffer', 'DW.normalise', 'DW.quantity', 'PercentFee.totalCost', 'ZeroFee.totalCost'],
@@ -54,6 +55,13 @@ _UNIT_OF = {'Handler': 'Handler', 'Session': 'Plan', 'Universe': 'Kernels', 'Opt
 # refers to these tie theorems, so it is only built when all of them are proved
 LIFTED_REQUIRES = ['Position.totalPnl', 'Position.realised', 'Position.unrealised', 'Position.avgPrice', 'Position.net',
                    'Position.transact', 'PercentFee.totalCost', 'ZeroFee.totalCost', 'DW.quantity', 'LS.quantity', 'Broker.makeTxn']
+# a second module of the same kind (QsProofs/Tie/LiftedBroker.lean): account-level broker requests
+LIFTED2_REQUIRES = ['Broker.checkFunds', 'Broker.checkCurrency', 'Broker.subscribeAccount', 'Broker.withdrawAccount']
+LIFTED2_BY_PROP = {
+    'C01': ['Qs.Tie.C01_src_subscribeAccount', 'Qs.Tie.C01_src_withdrawAccount', 'Qs.Tie.C01_src_account_ops'],
+    'C15': ['Qs.Tie.C15_src_currency', 'Qs.Tie.C15_src_funds', 'Qs.Tie.C15_src_create', 'Qs.Tie.C01_src_subscribeAccount',
+            'Qs.Tie.C01_src_withdrawAccount', 'Qs.Tie.C01_src_account_ops'],
+}
 LIFTED_BY_PROP = {
     'C02': ['Qs.Tie.C02_src_transact'],
     'C03': ['Qs.Tie.C03_src_total', 'Qs.Tie.C03_src_avgPrice'],
@@ -102,6 +110,8 @@ def run_ties(prop=None):
         wanted = set(_UNIT_OF.get(k.split('.')[0], k.split('.')[0]) for k in PROP_TIES.get(prop, []))
         if prop in LIFTED_BY_PROP:
             wanted |= set(_UNIT_OF.get(k.split('.')[0], k.split('.')[0]) for k in LIFTED_REQUIRES)
+        if prop in LIFTED2_BY_PROP:
+            wanted |= set(_UNIT_OF.get(k.split('.')[0], k.split('.')[0]) for k in LIFTED2_REQUIRES)
         if not wanted:
             return {}, ''
     # which proofs failed for exactly this source was found out by an earlier run: start from there
@@ -209,6 +219,12 @@ def for_property(prop, ties):
             out['modules'].append('QsProofs.Tie.Lifted')
         else:
             out['lifted_skipped'] = [k for k in LIFTED_REQUIRES if ties.get(k, {}).get('status') != 'proved']
+    if prop in LIFTED2_BY_PROP:
+        if all(ties.get(k, {}).get('status') == 'proved' for k in LIFTED2_REQUIRES):
+            out['lifted'] += list(LIFTED2_BY_PROP[prop])
+            out['modules'].append('QsProofs.Tie.LiftedBroker')
+        else:
+            out['lifted_skipped'] = out.get('lifted_skipped', []) + [k for k in LIFTED2_REQUIRES if ties.get(k, {}).get('status') != 'proved']
     return out
 
 
